@@ -164,6 +164,21 @@ var (
 	syncReachMemo = map[*ssa.Function]map[*ssa.Function]bool{}
 )
 
+// walkSynthetic visits the static callees of a synthetic wrapper (which itself is outside the
+// module's source functions).
+func walkSynthetic(g *ssa.Function, walk func(*ssa.Function)) {
+	if g == nil {
+		return
+	}
+	for _, b := range g.Blocks {
+		for _, in := range b.Instrs {
+			if c, ok := in.(*ssa.Call); ok {
+				walk(StaticCallee(c.Common()))
+			}
+		}
+	}
+}
+
 // SyncReach returns the module functions reachable from the roots through synchronous
 // static calls and deferred calls (not go statements), including closures created on the way.
 func (p *Prog) SyncReach(roots ...*ssa.Function) map[*ssa.Function]bool {
@@ -196,6 +211,12 @@ func (p *Prog) SyncReach(roots ...*ssa.Function) map[*ssa.Function]bool {
 				walk(StaticCallee(x.Common()))
 			case *ssa.Defer:
 				walk(StaticCallee(x.Common()))
+			case *ssa.MakeClosure:
+				// a method value (bound-method wrapper): the method runs wherever the value
+				// is called; function literals are covered by AnonFuncs
+				if g, ok := x.Fn.(*ssa.Function); ok && g.Parent() == nil {
+					walkSynthetic(g, walk)
+				}
 			}
 		})
 	}
